@@ -9,8 +9,8 @@ open Monero Monero.Scan
 
 Result text of a scan: `err <NoTxPublicKey|MissingEcdhInfo|MissingCommitment|InvalidCommitment>` or
 `ok <n> <entry>…` with one entry per owned output, in output order:
-`<index>:<major>/<minor>:<matched tx key hex>:<amount|none>:<mask hex|none>:<commitment hex|none>`
-(`OwnedTxOut::{index, sub_index, tx_pubkey, amount, blinding_factor, commitment}`).
+`<index>:<major>/<minor>:<matched tx key hex>:<amount|none>:<mask hex|none>:<commitment hex|none>:<output key hex>/<tag hex|->/<clear amount>`
+(`OwnedTxOut::{index, sub_index, tx_pubkey, amount, blinding_factor, commitment, out}`).
 
 * `c07_scan <v> <S> <majLo> <majHi> <minLo> <minHi> <tx hex>` — model: `Monero.tx` (strict) then
   `Scan.checkOutputsTx` over the reference curve; spec side `-` (what the sender meant is not in the bytes).
@@ -18,7 +18,11 @@ Result text of a scan: `err <NoTxPublicKey|MissingEcdhInfo|MissingCommitment|Inv
   explicitly given `RctSigBase`: `<base>` = `none` | `<type 0..6>:<ecdh,…|->:<commitment,…|->` (ecdh items of 64 bytes are
   `Standard{mask,amount}`, of 8 bytes `Bulletproof{amount}`; list lengths are free, so `MissingEcdhInfo` /
   `MissingCommitment` are reachable). Spec side `-`.
-* `c08_open <v> <S> <R> <n> <ecdh 64|8 bytes> <commitment>` → `none` | `ok <amount> <mask hex>`:
+* `c07_check <v> <S> <majLo> <majHi> <minLo> <minHi> <n> <P> <R>` → `none` | `<major>/<minor>`: `SubKeyChecker::new(..).check(n, P, R)`
+  (the harness also calls `check_with_key_generator` and reports `CHECK-DIFFER` if they disagree). Model: `Checker.check` on
+  `Checker.new`; spec: by the book — the LAST index of the ranges (major-then-minor order) whose address spend key `S'` satisfies
+  `P = Hs(8·v·R ‖ n)·G + S'` (`Spec.Sender`).
+* `c08_open <v> <S> <R> <n> <ecdh 64|8 bytes> <commitment>` → `none` | `ok <amount> <mask hex> <commitment hex>`:
   `EcdhInfo::open_commitment` on the permissively decompressed commitment (`none` also when it does not decompress).
   Model: `Scan.openCommitment`; spec: Monero's `ecdhDecode` by the book (Spec/Amounts.lean) followed by the check
   `y·G + a·H = C` with RFC 8032 arithmetic.
@@ -40,10 +44,15 @@ def errName : ScanErr → String
   | .invalidCommitment => "InvalidCommitment"
 
 def showOpt (o : Option String) : String := o.getD "none"
-def showEntry (index major minor : Nat) (key : Bytes) (amount : Option Nat) (mask : Option Nat) (comm : Option Bytes) : String :=
-  s!"{index}:{major}/{minor}:{hx key}:{showOpt (amount.map toString)}:{showOpt (mask.map fun m => hx (scalarBytes m))}:{showOpt (comm.map hx)}"
+/-- `OwnedTxOut::out()`: output key, view tag, clear amount -/
+def showOut (key : Bytes) (tag : Option UInt8) (amount : Nat) : String :=
+  s!"{hx key}/{match tag with | none => "-" | some t => hx [t]}/{amount}"
+def showEntry (index major minor : Nat) (key : Bytes) (amount : Option Nat) (mask : Option Nat) (comm : Option Bytes)
+    (out : String) : String :=
+  s!"{index}:{major}/{minor}:{hx key}:{showOpt (amount.map toString)}:{showOpt (mask.map fun m => hx (scalarBytes m))}:{showOpt (comm.map hx)}:{out}"
 def showOwned (w : Owned) : String :=
   showEntry w.index w.sub.1 w.sub.2 w.txKey w.amount w.blindingFactor w.commitment
+    (match w.out.target with | .key k => showOut k none w.out.amount | .tagged k t => showOut k (some t) w.out.amount)
 def showEntries (es : List String) : String := " ".intercalate (s!"ok {es.length}" :: es)
 def showScan : Except ScanErr (List Owned) → String
   | .error e => "err " ++ errName e
@@ -85,15 +94,24 @@ def specPoint (b : Bytes) : Option Ed.Pt :=
   | none => none
   | some Q => some (if k / 2 ^ 255 = 1 then Ed.neg Q else Q)
 
-def specOpen (v : Nat) (R : Ed.Pt) (n : Nat) (ecdh : Bytes) (C : Ed.Pt) : Option (Nat × Nat) :=
+def specOpen (v : Nat) (R : Ed.Pt) (n : Nat) (ecdh : Bytes) (C : Ed.Pt) : Option (Nat × Nat × Bytes) :=
   let D := Spec.Sender.derivation refPrims v R
   let k := Spec.Sender.derivationScalar refPrims D n
   let (a, y) := if ecdh.length = 64 then Spec.Amounts.legacyDecode refPrims k (ecdh.take 32) (ecdh.drop 32)
                 else Spec.Amounts.compactDecode refPrims k ecdh
-  if Ed.eqPt (Spec.Amounts.commitment refPrims specH y a) C then some (a, y) else none
+  if Ed.eqPt (Spec.Amounts.commitment refPrims specH y a) C then some (a, y, Ed.encodePt C) else none
 
-def showOpen (o : Option (Nat × Nat)) : String :=
-  match o with | none => "none" | some (a, y) => s!"ok {a} {hx (scalarBytes y)}"
+def showOpen (o : Option (Nat × Nat × Bytes)) : String :=
+  match o with | none => "none" | some (a, y, c) => s!"ok {a} {hx (scalarBytes y)} {hx c}"
+
+/-! ### c07_check, specification side -/
+/-- by the book: the indices of the ranges in the order major-then-minor; the last one whose address spend key fits wins -/
+def specCheck (v : Nat) (S : Ed.Pt) (a b c d : Nat) (n : Nat) (P R : Ed.Pt) : Option (Nat × Nat) :=
+  let D := Spec.Sender.derivation refPrims v R
+  let idxs := (List.range (b - a)).flatMap fun i => (List.range (d - c)).map fun j => (a + i, c + j)
+  (idxs.filter fun ij =>
+    Ed.eqPt (Spec.Sender.oneTimeKey refPrims D (Spec.Sender.destAt refPrims v S ij.1 ij.2).spend n) P).getLast?
+def showIdx (o : Option (Nat × Nat)) : String := match o with | none => "none" | some (i, j) => s!"{i}/{j}"
 
 /-! ### scenarios
 
@@ -108,8 +126,10 @@ mask `sc 'y' i`; unrelated output key `sc 'x' i • G`.
 `P` padding 000000; `<T>` a point of order 8; `<fill>` the 32 bytes used as output key of filler outputs;
 `<out>` = `g.<count>` (filler run) | `X` (unrelated valid key) | `<dest>.<deriv>.<tag>.<shift>.<amount>[.<corrupt>]` with
 dest `P` (this wallet's primary address) | `F` (foreign wallet) | `S<i>/<j>`; deriv `m` (main secret) | `a` | `a<k>` (own
-secret, published as additional key, plus k·T); tag `t` right | `w` wrong | `n` absent; shift: the position the sender used
-is index+shift; corrupt `e` (ecdh amount bit 0) | `k` (legacy ecdh mask bit 0) | `c` (commitment bit 0) | `a` (RingCT output whose CLEAR amount field is
+secret, published as additional key, plus k·T) | `b<k>` (main secret, and the additional key at this position is the main
+key plus k·T: both keys address the output, the main key has priority); tag `t` right | `n` absent | wrong: `w` +1, `v` −1,
+`x` xor 0x80, `y` xor 0x01, `z` 0 (128 if the right tag is 0), `f` 255 (127 if the right tag is 255); shift: the position the sender used
+is index+shift; corrupt `t` (the output key is the honest one-time key PLUS the small-order point `<T>`: not ours) | `e` (ecdh amount bit 0) | `k` (legacy ecdh mask bit 0) | `c` (commitment bit 0) | `a` (RingCT output whose CLEAR amount field is
 non-zero, 77 + position: the reported amount must still be the opened one). -/
 namespace Scen
 open Spec.Sender hiding Bytes
@@ -121,6 +141,7 @@ structure Real where
   dest : DestK
   own : Bool          -- deriv a
   tors : Nat
+  both : Option Nat   -- deriv b<k>
   tag : Char
   shift : Nat
   amount : Nat
@@ -144,16 +165,17 @@ def parseOut (s : String) : Option (List OutD) :=
   | ["g", n] => n.toNat?.map fun n => List.replicate n .fill
   | d :: der :: tag :: sh :: am :: rest => do
     let dest ← parseDest d
-    let (own, tors) ← (match der.toList with
-      | ['m'] => some (false, 0)
-      | ['a'] => some (true, 0)
-      | ['a', c] => if c.isDigit then some (true, c.toNat - 48) else none
+    let (own, tors, both) ← (match der.toList with
+      | ['m'] => some (false, 0, none)
+      | ['a'] => some (true, 0, none)
+      | ['a', c] => if c.isDigit then some (true, c.toNat - 48, none) else none
+      | ['b', c] => if c.isDigit then some (false, 0, some (c.toNat - 48)) else none
       | _ => none)
     let tag ← tag.toList.head?
     let sh ← sh.toNat?
     let am ← am.toNat?
     let cor := match rest with | [c] => c.toList.headD '-' | _ => '-'
-    some [.real ⟨dest, own, tors, tag, sh, am, cor⟩]
+    some [.real ⟨dest, own, tors, both, tag, sh, am, cor⟩]
   | _ => none
 
 structure Hdr where
@@ -176,6 +198,13 @@ def encG : Bytes := Ed.encodePt Ed.G
 def enc (p : Ed.Pt) : Bytes := Ed.encodePt p
 def torsion (T : Ed.Pt) (k : Nat) (X : Ed.Pt) : Ed.Pt := if k = 0 then X else Ed.add X (Ed.smul k T)
 def flip0 (b : Bytes) : Bytes := match b with | [] => [] | x :: r => (x ^^^ 1) :: r
+/-- the tag byte written for a tag letter, given the right tag -/
+def tagByte (c : Char) (right : UInt8) : Option UInt8 :=
+  if c == 'n' then none else if c == 'w' then some (right + 1) else if c == 'v' then some (right - 1)
+  else if c == 'x' then some (right ^^^ 0x80) else if c == 'y' then some (right ^^^ 0x01)
+  else if c == 'z' then some (if right == 0 then 128 else 0) else if c == 'f' then some (if right == 255 then 127 else 255)
+  else some right
+def tagIsWrong (c : Char) : Bool := c == 'w' || c == 'v' || c == 'x' || c == 'y' || c == 'z' || c == 'f'
 
 /-- what the sender writes for one output: (clear amount, key, tag, additional key, ecdh, commitment), and what the
 receiver is expected to report for it if it is recognised: (subaddress index, is-own-derivation, mask) -/
@@ -206,6 +235,11 @@ def dummyEcdh (h : Hdr) : Option Ecdh :=
 def inRange (h : Hdr) (idx : Nat × Nat) : Bool :=
   h.majLo ≤ idx.1 && idx.1 < h.majHi && h.minLo ≤ idx.2 && idx.2 < h.minHi
 
+/-- the point of the main transaction key the sender publishes: r·G or r·S'(mainSub), plus mainTors·T -/
+def mainPoint (h : Hdr) (v : Nat) (S : Ed.Pt) : Ed.Pt :=
+  let mainBase := match h.mainSub with | none => G | some (i, j) => (destAt refPrims v S i j).spend
+  torsion h.T h.mainTors (Ed.smul (sc h.seed 'r' 0) mainBase)
+
 def buildOut (h : Hdr) (v : Nat) (S : Ed.Pt) (pos : Nat) (o : OutD) : Built :=
   let unrelatedAdd := fun (_ : Unit) => enc (Ed.smul (sc h.seed 'u' pos) G)
   match o with
@@ -215,10 +249,13 @@ def buildOut (h : Hdr) (v : Nat) (S : Ed.Pt) (pos : Nat) (o : OutD) : Built :=
     let (d, idx?) := destOf h v S r.dest
     let secret := if r.own then sc h.seed 'a' pos else sc h.seed 'r' 0
     let n := pos + r.shift
-    let key := enc (sendKey refPrims secret d n)
+    let key := enc (if r.corrupt == 't' then Ed.add (sendKey refPrims secret d n) h.T else sendKey refPrims secret d n)
     let rightTag := sendTag refPrims secret d n
-    let tag := if r.tag == 'n' then none else if r.tag == 'w' then some (rightTag + 1) else some rightTag
-    let addKey := if r.own then enc (torsion h.T r.tors (txKey refPrims secret d)) else unrelatedAdd ()
+    let tag := tagByte r.tag rightTag
+    let addKey := if r.own then enc (torsion h.T r.tors (txKey refPrims secret d)) else
+      match r.both with
+      | some k => enc (torsion h.T k (mainPoint h v S))
+      | none => unrelatedAdd ()
     let k := derivationScalar refPrims (derivation refPrims secret d.view) n
     let y := if compact h then compactMask refPrims k else sc h.seed 'y' pos
     let C := enc (commitment refPrims specH y r.amount)
@@ -231,11 +268,11 @@ def buildOut (h : Hdr) (v : Nat) (S : Ed.Pt) (pos : Nat) (o : OutD) : Built :=
         some (.bp (if r.corrupt == 'e' || r.corrupt == 'k' then flip0 a else a))
       else none
     let comm := if ringct h then (if r.corrupt == 'c' then flip0 C else C) else h.fill
-    let recognisable := r.shift == 0 && r.tag != 'w' &&
+    let recognisable := r.shift == 0 && r.corrupt != 't' && !tagIsWrong r.tag &&
       (match idx? with | some idx => inRange h idx | none => false)
     ⟨if ringct h then (if r.corrupt == 'a' then 77 + pos else 0) else r.amount, key, tag, addKey, ecdh, comm,
       if recognisable then idx?.map fun idx => (idx, r.own, y, C) else none,
-      ringct h && r.corrupt != '-' && r.corrupt != 'a'⟩
+      ringct h && r.corrupt != '-' && r.corrupt != 'a' && r.corrupt != 't'⟩
 
 def zipIdx {α} (l : List α) : List (Nat × α) := (List.range l.length).zip l
 
@@ -284,19 +321,20 @@ def expected (h : Hdr) (t : Tx) (outs : List OutD) : String :=
     let cands := (zipIdx (t.outs.zip outs)).filterMap fun (pos, (b, o)) =>
       match b.expect, o with
       | some (idx, own, y, C), .real r =>
-        let mainFits := mainIsSenders && !own &&
+        let fits := !own &&
           (match r.dest with
            | .primary => h.mainSub.isNone
            | .sub i j => if i == 0 && j == 0 then h.mainSub.isNone else h.mainSub == some (i, j)
            | .foreign => false)
-        let addFits := own && pos < t.addCover
+        let mainFits := mainIsSenders && fits
+        let addFits := (own || (r.both.isSome && fits)) && pos < t.addCover
         if mainFits then some (pos, idx, t.mainKey, b, r, y, C)
         else if addFits then some (pos, idx, b.addKey, b, r, y, C) else none
       | _, _ => none
     if cands.any fun (_, _, _, b, _, _, _) => b.corrupt then "err InvalidCommitment" else
-    showEntries (cands.map fun (pos, idx, K, _, r, y, C) =>
-      if ringct h then showEntry pos idx.1 idx.2 K (some r.amount) (some y) (some C)
-      else showEntry pos idx.1 idx.2 K (if r.amount = 0 then none else some r.amount) none none)
+    showEntries (cands.map fun (pos, idx, K, b, r, y, C) =>
+      if ringct h then showEntry pos idx.1 idx.2 K (some r.amount) (some y) (some C) (showOut b.key b.tag b.amount)
+      else showEntry pos idx.1 idx.2 K (if r.amount = 0 then none else some r.amount) none none (showOut b.key b.tag b.amount))
 
 /-- the transaction as model values -/
 def toModel (h : Hdr) (t : Tx) : Prefix × Option Base :=
@@ -369,6 +407,15 @@ def stepC07 : Step
       | some (p, []) => some (showScan (checkOutputsPrefix refOps decP p v S a b c d base))
       | _ => none : Option String)
     some (r.getD "bad-input", "-")
+  | ["c07_check", v, s, a, b, c, d, n, p, r] => do
+    let a ← a.toNat?; let b ← b.toNat?; let c ← c.toNat?; let d ← d.toNat?; let n ← n.toNat?
+    let res := (do
+      let v ← scalarOf v
+      let S ← decodeKey (Hex.decode s)
+      let P ← decodeKey (Hex.decode p)
+      let R ← decodeKey (Hex.decode r)
+      some (showIdx ((Checker.new refOps v S a b c d).check refOps n P R), showIdx (specCheck v S a b c d n P R)) : Option (String × String))
+    some (res.getD ("bad-input", "bad-input"))
   | ["c08_open", v, _s, r, n, e, cm] => do
     let n ← n.toNat?
     let res := (do
@@ -377,7 +424,7 @@ def stepC07 : Step
       let ecdh ← parseEcdh e
       let model := match decP (Hex.decode cm) with
         | none => none
-        | some C => (openCommitment refOps decP ecdh v R n C).map fun o => (o.amount, o.mask)
+        | some C => (openCommitment refOps decP ecdh v R n C).map fun o => (o.amount, o.mask, o.commitment)
       let spec := match specPoint (Hex.decode cm) with
         | none => none
         | some C => specOpen v R n (Hex.decode e) C
